@@ -6,6 +6,7 @@ R1  the client's unlock is called only after the registration loop has finished 
 R2  every path from the first registration attempt to the return runs the dequeue loop (so no record stays registered), and the heap bookkeeping is freed
     exactly when it was allocated.
 R3  the sleep happens only while min(ready times, deadline) > 0, inside a loop that re-polls every object's ready time after each return of the semaphore.
+R5  the index returned is decided by the dequeue results (tested, and guarding a definition of the returned value).
 R4  cv side of the registration: records woken by signal/broadcast are unlinked first and, unless proven pooled, woken under the cv spinlock (C04.R3/R5).
 Which index is reported under races is not decided."""
 from .. import util, ir as IR, wakeshape
@@ -104,6 +105,62 @@ def loops_itself(mod, call, slot):
     """the call goes to a helper that makes the slot call from inside a loop of its own"""
     return call.callee is not None and _helper_has_slot(mod, call.callee, slot, in_loop_only=True)
 
+def check_dequeue_result(mod, rep, rid):
+    """the result of every dequeue call of nsync_wait_n (0 = the record was no longer queued: a waker consumed it / the object is ready) is
+    tested, and the test guards a definition of the value the function returns.  Dequeue is the only point at which "was this call woken
+    through object j" is decided under the object's lock; a report computed from anything earlier (e.g. the lock-free ready_time poll) turns
+    a wake-up that lands between the last poll and the dequeue into a timeout, although the waker has already spent it on this call."""
+    fn = mod.func('nsync_wait_n')
+    if fn is None or fn.decl:
+        raise AnalysisBroken('%s: nsync_wait_n not found' % rid)
+    um = util.users_map(fn)
+    rets = [i for i in fn.real_insts() if i.op == 'ret' and i.ops]
+    def reaches_ret(ref, seen):
+        """ref flows into the returned value through phis / selects"""
+        if ref in seen:
+            return False
+        seen.add(ref)
+        for u in um.get(ref, []):
+            if u.op == 'ret':
+                return True
+            if u.op in ('phi', 'select', 'zext', 'sext', 'trunc') and reaches_ret(u.id, seen):
+                return True
+        return False
+    cfg = cfg_of(fn)
+    n = 0
+    for c in _direct_slot_calls(mod, fn, 'dequeue'):
+        n += 1
+        # branches decided by the call's result
+        tested = []
+        work, seen = [c.id], set()
+        while work:
+            r = work.pop()
+            if r in seen:
+                continue
+            seen.add(r)
+            for u in um.get(r, []):
+                if u.op in ('icmp', 'zext', 'trunc', 'xor', 'and', 'or', 'phi', 'select'):
+                    work.append(u.id)
+                elif u.op == 'br':
+                    tested.append(u)
+        decides = False
+        for br in tested:
+            for tgt in br.x['targets']:
+                # a definition of the returned value control-dependent on this branch: a phi operand coming from a block dominated by the
+                # branch target, where the phi reaches the return
+                for i in fn.real_insts():
+                    if i.op == 'phi' and reaches_ret(i.id, set()):
+                        for v, pb in i.ops:
+                            if fn.bmap[tgt].preds == [br.block.id] and cfg.dominates(tgt, pb) and not cfg.dominates(tgt, i.block.id):
+                                decides = True
+        rep.instance(rid, 'dequeue result at %s: tested by %d branch(es), decides the returned index: %s' % (c.where(), len(tested), decides))
+        rep.oblig(rid, decides)
+        if not decides:
+            rep.violate(Violation(rid, c.where(), 'nsync_wait_n %s the result of dequeue: whether this call was woken through the object is decided only there (under the object\'s lock); '
+                                  'a wake-up that arrives after the last ready_time poll is consumed (the record is unlinked and posted) but the call reports a timeout' %
+                                  ('ignores' if not tested else 'does not derive its returned index from'), site='nsync_wait_n/dequeue-result'))
+    return n
+
 def run(ctx, rep):
     mod = ctx.mod('C')
     K = ctx.probe
@@ -115,6 +172,8 @@ def run(ctx, rep):
     rep.rule('C11.R2', 'dequeue loop on every path after a registration attempt; bookkeeping freed iff allocated')
     rep.rule('C11.R3', 'sleep only while the earliest ready time is in the future, re-polling after each wake-up')
     rep.rule('C11.R4', 'cv wakers unlink before waking and wake non-pooled records under the spinlock')
+    rep.rule('C11.R5', 'the returned index is derived from the dequeue results')
+    check_dequeue_result(mod, rep, 'C11.R5')
     cfg = cfg_of(fn)
     enq = slot_calls(mod, fn, 'enqueue')
     deq = slot_calls(mod, fn, 'dequeue')
